@@ -10,10 +10,10 @@ func init() {
 		// reads (`naStart := validationOpts.notAfterStart`, `cert := chain[0]`, a hoisted `cert.NotAfter`) substituted back.
 		{"ValidateChain.rejectStart", condKernel(cc, "ValidateChain", []string{"validationOpts.notAfterStart", "Before"}, "validateChainRejectStart", "(start : Option Int) (t : Int)",
 			Spec{Canon: true, ParamNames: []string{"rawChain", "validationOpts"}, Repl: map[string]string{"validationOpts.notAfterStart != nil": "start.isSome",
-				"*validationOpts.notAfterStart": "(start.getD 0)", "chain[0].NotAfter": "t"}})},
+				"*validationOpts.notAfterStart": "(start.getD 0)", "…[0].NotAfter": "t"}})},
 		{"ValidateChain.rejectLimit", condKernel(cc, "ValidateChain", []string{"validationOpts.notAfterLimit", "Before"}, "validateChainRejectLimit", "(limit : Option Int) (t : Int)",
 			Spec{Canon: true, ParamNames: []string{"rawChain", "validationOpts"}, Repl: map[string]string{"validationOpts.notAfterLimit != nil": "limit.isSome",
-				"*validationOpts.notAfterLimit": "(limit.getD 0)", "chain[0].NotAfter": "t"}})},
+				"*validationOpts.notAfterLimit": "(limit.getD 0)", "…[0].NotAfter": "t"}})},
 		// IndexByDate: the verdict of the loop body for one shard (`return` = taken, `continue` = skipped), whatever the body's shape
 		// (two `if … { continue }`, one combined test, a helper method); the first shard taken is returned.
 		{"IndexByDate.takes", loopVerdictKernel(ml, "TemporalLogClient.IndexByDate", "tlc.intervals", "interval", "indexByDateTakes", "(lower upper : Option Int) (when : Int)", "Bool", "false",
